@@ -66,6 +66,9 @@ pub fn install_silent_panic_hook() {
         } else {
             "<non-string panic>".to_string()
         };
+        if std::env::var_os("VERIF_PANIC_VERBOSE").is_some() {
+            eprintln!("panic: {msg} @ {loc}");
+        }
         LAST_PANIC.with(|p| *p.borrow_mut() = Some(format!("{msg} @ {loc}")));
     }));
 }
